@@ -18,7 +18,8 @@ XEndTick(sg) == XTick(sg.ev, Len(sg.ev)) + sg.eot
 IsB7(x) == x \in 0..127
 XEvOK(e) ==
   CASE e.k = "on"    -> e.ch \in 0..15 /\ IsB7(e.n) /\ e.v \in 1..127 /\ e.dur >= 1
-    [] e.k = "cc"    -> e.ch \in 0..15 /\ IsB7(e.n) /\ IsB7(e.v) /\ e.n \notin 110..120      \* 110..120 are AIL sequencer controls, not music
+    [] e.k = "cc"    -> e.ch \in 0..15 /\ IsB7(e.n) /\ IsB7(e.v) /\ e.n \notin 112..120      \* 112..120 are AIL sequencer controls with a meaning of their own (for/next loops, callbacks, ...);
+                                                                                            \* 110 / 111 (channel lock / protect) are passed on as plain controllers
     [] e.k = "pc"    -> e.ch \in 0..15 /\ IsB7(e.p)
     [] e.k = "bend"  -> e.ch \in 0..15 /\ e.v \in 0..16383
     [] e.k = "cat"   -> e.ch \in 0..15 /\ IsB7(e.v)
